@@ -11,7 +11,7 @@ from . import cfg as CFG
 
 
 def tx(t):
-    return T.ir_text(t.ir).replace(" ", "")
+    return A.TTxt(T.ir_text(t.ir).replace(" ", ""))
 
 
 def templates_in(ctx, rel, qual):
@@ -41,7 +41,7 @@ def rule_tpl_role(ctx):
     # --- enum forms
     fn, ts = templates_in(ctx, "impl/src/add_like.rs", "enum_content")
     f = fn.file
-    texts = [tx(t) for t in ts]
+    texts = A.TList(tx(t) for t in ts)
     want = {
         "tuple": r"\(#subtype\(#\(#(\w+)\),\*\),#subtype\(#\(#(\w+)\),\*\)\)=>\{derive_more::core::result::Result::Ok\(#subtype\(#\(#(\w+)\.#method_iter\(#(\w+)\)\),\*\)\)\}",
         "named": r"\(#subtype\{#\(#field_names:#(\w+)\),\*\},#subtype\{#\(#field_names:#(\w+)\),\*\}\)=>\{derive_more::core::result::Result::Ok\(#subtype\{#\(#field_names:#(\w+)\.#method_iter\(#(\w+)\)\),\*\}\)\}",
@@ -128,7 +128,7 @@ def rule_unary(ctx):
             ctx.report(f"unary:{qual}", ctx.where(fn.file, fn.node), f"`{qual}` no longer maps each field with `self.#f.op()` into the same field", {"templates": [tx(t) for t in ts]})
     fn, ts = templates_in(ctx, rel, "enum_output_type_and_content")
     f = fn.file
-    texts = [tx(t) for t in ts]
+    texts = A.TList(tx(t) for t in ts)
     body = A.fn_text(fn)
     need = {
         "tuple-body": "#subtype(#(#vars.#method_iter()),*)",
@@ -271,7 +271,7 @@ def rule_method_names(ctx):
     # Sum / Product fold
     fn, ts = templates_in(ctx, "impl/src/sum_like.rs", "expand")
     body = A.fn_text(fn)
-    texts = [tx(t) for t in ts]
+    texts = A.TList(tx(t) for t in ts)
     ctx.instance("sum:op-table")
     if 'let op_trait_name=if trait_name=="Sum"{"Add"}else {"Mul"}' not in body and 'let op_trait_name=if trait_name=="Sum"{"Add"}else{"Mul"}' not in body.replace("else {", "else{"):
         ctx.report("sum:op-table", ctx.where(fn.file, fn.node), "Sum -> Add / Product -> Mul mapping changed", {})
